@@ -422,8 +422,9 @@ MONITOR_PROPS = {
     "NoDangling": ["C03", "C04", "C05", "C13"],
     "Format": ["C13", "C11"],
     "CreateNewContract": ["C07"],
-    "BackupOverwrote": ["C07", "C14"],
-    "BackupRemoved": ["C07"],
+    "BackupOverwrote": ["C07", "C14", "C04"],
+    "BackupRemoved": ["C07", "C04"],
+    "InterruptedNotPrefix": ["C03", "C04"],
     "NewBandNotAbove": ["C07"],
     "GcWrote": ["C07"],
     "GcRemovedUnrequested": ["C07", "C05"],
